@@ -214,7 +214,10 @@ func (c *Ctx) Finish(machineryErr error) int {
 	cov["solver_errors"] = c.Solver.Errors
 	if c.Solver.Errors > 0 {
 		// an "(error" answer is never a verdict: say so even where the query's caller did not
-		c.Inconclusive(fmt.Sprintf("%d solver answers were errors (counted as unknown, no verdict drawn from them)", c.Solver.Errors))
+		// (c.mu is held here)
+		msg := fmt.Sprintf("%d solver answers were errors (counted as unknown, no verdict drawn from them)", c.Solver.Errors)
+		c.Inconcl = append(c.Inconcl, msg)
+		fmt.Printf("INCONCLUSIVE property=%s %s\n", c.ID, msg)
 	}
 	cov["solver_time_s"] = float64(c.Solver.SolverNs) / 1e9
 	if len(c.Inconcl) > 0 {
